@@ -231,6 +231,29 @@ def base64DecodedLength (cs : List Char) : Option Nat :=
   if !body.all isB64 || !pad.all (· == '=') || pad.length > 2 then none else
   if !lastOkB pad.length body.getLast? then none else some (body.length * 3 / 4)
 
+/-- the base64 alphabet -/
+def b64Alphabet : List Char := "ABCDEFGHIJKLMNOPQRSTUVWXYZabcdefghijklmnopqrstuvwxyz0123456789+/".toList
+
+def b64Char (n : Nat) : Char := b64Alphabet.getD n '/'
+
+/-- RFC 4648 encoding of a sequence of octets (numbers below 256) -/
+def b64Encode : List Nat → List Char
+  | [] => []
+  | [a] => [b64Char (a / 4), b64Char (a % 4 * 16), '=', '=']
+  | [a, b] => [b64Char (a / 4), b64Char (a % 4 * 16 + b / 16), b64Char (b % 16 * 4), '=']
+  | a :: b :: c :: r =>
+    b64Char (a / 4) :: b64Char (a % 4 * 16 + b / 16) :: b64Char (b % 16 * 4 + c / 64) :: b64Char (c % 64) :: b64Encode r
+
+/-- the octets a canonical base64 string denotes -/
+def b64Decode : List Char → List Nat
+  | w :: x :: y :: z :: r =>
+    if y == '=' then [b64Index w * 4 + b64Index x / 16]
+    else if z == '=' then [b64Index w * 4 + b64Index x / 16, b64Index x % 16 * 16 + b64Index y / 4]
+    else (b64Index w * 4 + b64Index x / 16) :: (b64Index x % 16 * 16 + b64Index y / 4) ::
+      (b64Index y % 4 * 64 + b64Index z) :: b64Decode r
+  | _ => []
+
+
 def acceptsBase64 (maxLen : Nat) (cs : List Char) : Bool :=
   match base64DecodedLength cs with
   | some n => decide (1 ≤ n) && (maxLen == 0 || decide (n ≤ maxLen))
